@@ -372,7 +372,24 @@ fn run_maddr(c: &Value, rng: &mut StdRng, lines: &mut Vec<String>) {
         })
         .unwrap_or(false);
         let got = if fault("maddr-first") && n >= 1 { "A" } else { got };
-        lines.push(jline(json!({"e": "maddr", "c": c, "form": form, "got": got, "append_rt": append_rt, "addr": m.to_string()})));
+        // the library's own appender
+        let (new_got, new_ok) = catch(|| {
+            use litep2p::verif::addr::AddressRecord;
+            let rec = AddressRecord::new(&extra, m.clone(), 0);
+            let ends_with_p2p = matches!(m.iter().last(), Some(Protocol::P2p(_)));
+            let expect = if ends_with_p2p { m.clone() } else { m.clone().with(Protocol::P2p(extra.into())) };
+            let g = match PeerId::try_from_multiaddr(rec.address()) {
+                None => "none",
+                Some(p) if p == extra => "P",
+                Some(p) if p == a => "A",
+                Some(p) if p == b => "B",
+                Some(_) => "other",
+            };
+            (g, rec.address() == &expect && AddressRecord::from_multiaddr(rec.address().clone()).is_some())
+        })
+        .unwrap_or(("panic", false));
+        lines.push(jline(json!({"e": "maddr", "c": c, "form": form, "got": got, "append_rt": append_rt, "new_got": new_got, "new_ok": new_ok,
+                                "addr": m.to_string()})));
     }
 }
 
